@@ -201,10 +201,12 @@ struct puni {
 	uint32_t trunk6[4][4];
 	int ntrunk;
 	uint32_t asns[6];
+	bool hostbits; /* C02 only: some records carry non-zero bits behind their length (C01 is stated for host bits zero) */
 };
 
 static void puni_init(struct puni *u, struct rng *r)
 {
+	u->hostbits = false;
 	u->ntrunk = 2 + (int)rndn(r, 3);
 	for (int i = 0; i < 4; i++) {
 		u->trunk4[i] = rnd32(r);
@@ -255,6 +257,19 @@ static void gen_rec(struct puni *u, struct rng *r, struct mrec *m)
 		m->a[b / 32] ^= 0x80000000u >> (b % 32);
 	}
 	mask_to(m->a, m->fam, m->len);
+	if (u->hostbits && m->len < full && rndp(r, 1, 2)) {
+		/* the same prefix with a few different tails: records that differ in the address only behind the length */
+		static const uint32_t TAIL[] = {1, 2, 3, 0x80000000u, 0xffffffffu};
+		uint32_t tail[4] = {0, 0, 0, 0}, keep[4] = {0xffffffffu, 0xffffffffu, 0xffffffffu, 0xffffffffu};
+
+		tail[m->fam == 4 ? 0 : 3] = TAIL[rndn(r, 5)];
+		if (m->fam == 6 && rndp(r, 1, 3))
+			tail[rndn(r, 3)] = TAIL[rndn(r, 5)];
+		mask_to(keep, m->fam, m->len);
+		for (int w = 0; w < 4; w++)
+			m->a[w] |= tail[w] & ~keep[w];
+		CNT("c02/records_with_host_bits_generated");
+	}
 	k = rndn(r, 8);
 	if (k < 3)
 		m->maxlen = m->len;
@@ -285,9 +300,12 @@ static struct pfx_record *REASON;
 static unsigned int REASON_N;
 
 static uint64_t TRIE_SHAPE_H; /* evidence only */
+static bool HOSTBITS_CASE;
 
 static void judge_query(struct pfx_table *t, int fam, const uint32_t q[4], int qlen, uint32_t asn, int reason_mode, struct rtr_mgr_config *mgr)
 {
+	if (HOSTBITS_CASE)
+		return; /* C01 quantifies over records with host bits zero */
 	struct lrtr_ip_addr ip;
 	enum pfxv_state st = 99, want;
 	int rc;
@@ -595,6 +613,9 @@ static void run_pfx_case(struct rng *r, long c)
 	struct rtr_mgr_config mgr;
 
 	puni_init(&u, r);
+	u.hostbits = HOSTBITS_CASE = c % 8 == 5;
+	if (HOSTBITS_CASE)
+		CNT("c02/cases_with_host_bit_records");
 	MN = CBN = 0;
 	CB_BROKEN = false;
 	CB_ON = true;
